@@ -288,6 +288,10 @@ type Prop struct {
 	Assumptions []string
 	// Replay re-executes one recorded case; returns process exit code.
 	Replay func(c *Ctx, path string) int
+	// Race, when set, is the free-running body of the supplementary race-detector
+	// pass (see race.go): it is executed inside a second build of this binary made
+	// with -race, with no scheduler installed.
+	Race func(c *Ctx, rep *RaceReport)
 }
 
 var registry = map[string]*Prop{}
@@ -360,6 +364,7 @@ func Main() {
 		emit   = flag.Bool("emit-known", false, "print failing classes/cases as known_findings JSON instead of a verdict (maintenance only)")
 		budget = flag.Duration("budget", 0, "soft wall-clock budget")
 		repo   = flag.String("repo", envOr("VERIF_REPO", "/repo"), "repository root the binary was built from")
+		raceCh = flag.Bool("racechild", false, "run the free-running race-detector body (binary built with -race)")
 	)
 	flag.Parse()
 	p := registry[*prop]
@@ -382,6 +387,10 @@ func Main() {
 	}
 	fmt.Sscanf(*shard, "%d/%d", &c.Shard, &c.NShards)
 
+	if *raceCh {
+		raceChild(c, p)
+		return
+	}
 	emitKnown = *emit
 	loadKnownFor(p.ID)
 	if *replay != "" {
@@ -408,6 +417,9 @@ func Main() {
 		res = runSharded(c, p, *budget)
 	} else {
 		res = p.Run(c)
+	}
+	if p.Race != nil {
+		racePass(c, p, res)
 	}
 	os.Exit(finish(c, p, res, *emit))
 }
